@@ -313,6 +313,22 @@ fn one_on(ctx: &mut Ctx, views: &[View], defs: &[Def], family: &str, only: Optio
         let enc_s = e_schema(v, &mut it);
         let dump = match catch(|| dump_doc(v, &mut it, &doc)) { Ok(d) => d, Err(p) => { ctx.fail("iterator-panic", &input, &p); continue; } };
         ctx.case("c18.typed", &[format!("={enc_s}"), format!("={enc_doc}")], &dump);
+        // correspondence, variables: per operation the variables written in the arguments and directives of the fields
+        // `all_fields` yields (through every fragment the operation reaches), against the model on ExecRules documents
+        if family.starts_with("shared") || family == "fixedJ" || docn % 4 == 0 {
+            let per_op: Vec<String> = doc.operations.iter().map(|op| {
+                let mut vs = BTreeSet::new();
+                let mut hidden = BTreeSet::new();
+                for f in op.all_fields(&doc) {
+                    for a in &f.arguments { value_vars(&a.value, false, false, &mut vs, &mut hidden); }
+                    for d in f.directives.iter() { for a in &d.arguments { value_vars(&a.value, false, false, &mut vs, &mut hidden); } }
+                }
+                if !vs.is_empty() && doc.operations.iter().count() > 1 && !doc.fragments.is_empty() { ctx.stat("opvars_multi_operation_with_variables"); }
+                format!("{}:{}", op.name.as_ref().map(|n| n.as_str()).unwrap_or("-"), vs.into_iter().collect::<Vec<_>>().join(","))
+            }).collect();
+            ctx.stat("opvars_cases");
+            ctx.case("c18.opvars", &[crate::p17::enc_rschema(&v.schema), crate::p17::enc_rdoc(&ast_doc)], &per_op.join(";"));
+        }
         // oracle: typing
         let mut n_fields = 0usize;
         for op in doc.operations.iter() {
